@@ -124,6 +124,8 @@ def _set_steps(tier):
     st = []
     for x in items:
         st += [{"op": "add", "x": x}, {"op": "remove", "x": x}, {"op": "discard", "x": x}]
+    if tier != "thorough":
+        st += [{"op": "add", "x": "a,b"}, {"op": "discard", "x": "A,B"}]       # an item that needs quoting
     st += [{"op": "clear"}, {"op": "pop"}, {"op": "update", "xs": ["Accept", "COOKIE"]},
            {"op": "update", "xs": ["cookie", "Cookie"]}, {"op": "ior", "xs": ["accept", "Origin"]},
            {"op": "isub", "xs": ["COOKIE", "nope"]},
@@ -1465,12 +1467,13 @@ def run(tier, seed, reg=None):
     col = common.Collector(
         RULE,
         "views vary/allow/content_language (add, remove, discard, update, |=, -=, pop, clear, item set/del, 5-6 items in "
-        "three letter cases), cache_control (13 typed directives x True/False/None/0/5/'7'/'x y'/'abc', delete, item "
+        "three letter cases), cache_control (13 typed directives - quick: 8 of them - x True/False/None/0/5/'7'/'x y'/'abc', delete, item "
         "set/del, pop, popitem, clear, update, setdefault, |=), content_security_policy(+report_only) (attributes, dict "
         "mutators), content_range (set valid/invalid, unset, start/stop/length/units attributes), www_authenticate (item, "
         "attribute, type, token, parameters, inner parameters dict), mimetype_params (dict mutators); each with "
         "whole-property assignments (str, list, object, None, lists of challenges) and direct header edits; every pair of "
-        "steps on 2-3 initial states in 'held' and 'fresh' mode, every triple over a core alphabet; scalar properties "
+        "steps on 2-3 initial states in 'held' and 'fresh' mode, every triple over a core alphabet (each step kind once "
+        "or twice; quick: triples not for allow/content_language/...report_only, which share vary's / CSP's code); scalar properties "
         "age/date/expires/last_modified/retry_after/content_length/location/content_*/accept_ranges/etag/"
         "access-control-*/cross-origin-*: assign (datetimes with sub-second parts, naive, other zones, timestamps, dates), "
         "re-assign, delete, pre-existing duplicate lines, direct edits"
